@@ -15,10 +15,11 @@ import (
 // are single atomic durable operations (what bbolt promises). State is
 // round-tripped through encoding/json exactly like metadb does.
 type SimMeta struct {
-	D      *simdisk.Disk
-	closed atomic.Bool
-	Loads  atomic.Int32
-	Closes atomic.Int32
+	D        *simdisk.Disk
+	closed   atomic.Bool
+	Loads    atomic.Int32
+	Closes   atomic.Int32
+	CloseErr bool // Close reports an error (the store is closed all the same)
 }
 
 func NewSimMeta(d *simdisk.Disk) *SimMeta { return &SimMeta{D: d} }
@@ -73,6 +74,9 @@ func (m *SimMeta) Close() error {
 	vsched.Yield("meta:close")
 	m.closed.Store(true)
 	m.Closes.Add(1)
+	if m.CloseErr {
+		return fmt.Errorf("simmeta: injected close error")
+	}
 	return nil
 }
 
